@@ -13,6 +13,7 @@ order, `inflight s p` the element producer `p` is carrying through push() right 
 -/
 import Osmium.Lemmas.QueueSM
 import Osmium.Lemmas.PoolSM
+import Osmium.Lemmas.PoolSM2Dtor
 
 namespace Osmium.C19
 
@@ -333,17 +334,141 @@ theorem pool_work_queue_fifo (c : PoolSM.Cfg) (s : PoolSM.State) (h : (PoolSM.ma
   have hq := PoolSM.reachable_q c s h
   exact ⟨hq, (queue_conservation c.qc s.q hq).1, no_lost_wakeup c.qc s.q hq⟩
 
-/-- `_partial` (exactly-once).  PROVED: running a job is only possible for the worker that
-    holds it after taking it from the work queue; the step executes it once (counter + 1),
-    stores its outcome (value or exception) in the shared state of its future, touches no other
-    job, and the worker gives the job up (back to the loop) — a popped job cannot be run twice
-    by its worker, and `future.get()` can only observe that outcome.
-    MISSING for the full `pool_exactly_once` (every submitted job has run exactly once and its
-    future holds its outcome when the destructor returns): the global invariant that links the
-    workers' hands to `q.popped` and lifts `no_dup_no_loss`/`per_producer_fifo` of the work queue
-    to job ids (distinct ids ⇒ no job is in two hands), and the counting argument "N stop tasks
-    popped ⇒ queue drained".  The harness monitors check exactly that on the implementation. -/
-theorem pool_exactly_once_partial (c : PoolSM.Cfg) (s s' : PoolSM.State) (w : Tid) (id : Nat)
+/-- Exactly once (any number of workers and submitters, any interleaving, any queue bound,
+    with or without spurious wake-ups).  In EVERY reachable state of the pool:
+    (1) submitted job ids are distinct;
+    (2) every submitted job is at exactly one of four places — carried through push() by a
+        submitter, in the work queue, in a worker's hands (returned by wait_and_pop, not yet
+        executed), or done — and its run counter is 0 and its future not ready at the first
+        three, 1 with the future holding the job's outcome (value or exception) when done;
+    (3) every place holds it at most once: one submitter, one queue slot, one worker;
+    (4) nothing else is anywhere: whatever is in push(), queued or in a hand was submitted, and
+        ids that were not submitted never run;
+    (5) no job ever runs twice, and `future.get()` can only deliver the outcome of the job,
+        after it ran;
+    (6) when the pool has terminated (destructor returned; the constructor guarantees at least
+        one worker) every submitted job has run exactly once and `future.get()` returns its
+        outcome. -/
+theorem pool_exactly_once (c : PoolSM.Cfg) (s : PoolSM.State) (h : (PoolSM.machine c).Reachable s) :
+    (s.submitted.map (·.1)).Nodup ∧
+    (∀ id out, (id, out) ∈ s.submitted →
+      (PoolSM.InPush s id out ∧ ¬ PoolSM.InQueue s id out ∧ ¬ PoolSM.InHands s id out ∧ PoolSM.NotRun s id) ∨
+      (¬ PoolSM.InPush s id out ∧ PoolSM.InQueue s id out ∧ ¬ PoolSM.InHands s id out ∧ PoolSM.NotRun s id) ∨
+      (¬ PoolSM.InPush s id out ∧ ¬ PoolSM.InQueue s id out ∧ PoolSM.InHands s id out ∧ PoolSM.NotRun s id) ∨
+      (¬ PoolSM.InPush s id out ∧ ¬ PoolSM.InQueue s id out ∧ ¬ PoolSM.InHands s id out ∧
+        PoolSM.RanOnce s id out)) ∧
+    ((∀ id o1 o2 t1 t2, (t1, PoolSM.Task.job id o1) ∈ inflight s.q t1 →
+        (t2, PoolSM.Task.job id o2) ∈ inflight s.q t2 → t1 = t2 ∧ o1 = o2) ∧
+     (s.q.items.filterMap PoolSM.jid).Nodup ∧
+     (∀ id o1 o2 w1 w2, PoolSM.Holds s.wpc w1 id o1 → PoolSM.Holds s.wpc w2 id o2 → w1 = w2 ∧ o1 = o2)) ∧
+    ((∀ id out, PoolSM.InPush s id out ∨ PoolSM.InQueue s id out ∨ PoolSM.InHands s id out →
+        (id, out) ∈ s.submitted) ∧
+     (∀ id, id ∉ s.submitted.map (·.1) → PoolSM.NotRun s id)) ∧
+    ((∀ id, s.runCount id ≤ 1) ∧
+     (∀ id out, (id, out) ∈ s.submitted → ∀ t o s', (PoolSM.machine c).Step s (.futureGet t id o) s' →
+        o = out ∧ s.runCount id = 1)) ∧
+    (s.dtor = .done → c.workers ≠ [] → ∀ id out, (id, out) ∈ s.submitted →
+      s.runCount id = 1 ∧ s.future id = some out ∧ ∀ t, (PoolSM.machine c).Step s (.futureGet t id out) s) := by
+  have hplace := fun id out hs => PoolSM.job_place c s h (id := id) (out := out) hs
+  have hcount : ∀ id out, (id, out) ∈ s.submitted → s.runCount id ≤ 1 ∧
+      (∀ o, s.future id = some o → o = out ∧ s.runCount id = 1) := by
+    intro id out hs
+    rcases hplace id out hs with ⟨_, _, _, hn⟩ | ⟨_, _, _, hn⟩ | ⟨_, _, _, hn⟩ | ⟨_, _, _, hr⟩
+    · exact ⟨by rw [hn.1]; omega, fun o ho => by rw [hn.2] at ho; cases ho⟩
+    · exact ⟨by rw [hn.1]; omega, fun o ho => by rw [hn.2] at ho; cases ho⟩
+    · exact ⟨by rw [hn.1]; omega, fun o ho => by rw [hn.2] at ho; cases ho⟩
+    · refine ⟨by rw [hr.1]; omega, fun o ho => ?_⟩
+      rw [hr.2] at ho
+      exact ⟨(Option.some.inj ho).symm, hr.1⟩
+  refine ⟨(PoolSM.inv_submitted c s h).2, hplace, ⟨?_, PoolSM.items_ids_nodup c s h, ?_⟩,
+    ⟨fun id out => PoolSM.located_submitted c s h, fun id => PoolSM.unsubmitted_not_run c s h⟩,
+    ⟨?_, ?_⟩, ?_⟩
+  · intro id o1 o2 t1 t2 h1 h2
+    exact PoolSM.inPush_unique c s h h1 h2
+  · intro id o1 o2 w1 w2 h1 h2
+    exact PoolSM.inHands_unique c s h h1 h2
+  · intro id
+    by_cases hs : id ∈ s.submitted.map (·.1)
+    · obtain ⟨⟨id', out⟩, hm, rfl⟩ := List.mem_map.mp hs
+      exact (hcount _ out hm).1
+    · rw [(PoolSM.unsubmitted_not_run c s h hs).1]; omega
+  · intro id out hs t o s' hst
+    simp only [Machine.Step, PoolSM.machine, PoolSM.step?] at hst
+    split at hst
+    · rename_i hf; exact (hcount id out hs).2 o hf
+    · cases hst
+  · intro hd hw id out hs
+    have hr := PoolSM.done_all_ran c s h hd hw hs
+    refine ⟨hr.1, hr.2, fun t => ?_⟩
+    simp [Machine.Step, PoolSM.machine, PoolSM.step?, hr.2]
+
+/-- The destructor joins all workers only after every queued task has run (any number of
+    workers and submitters, any interleaving).  In EVERY reachable state of the pool:
+    (1) FIFO shape of the work queue over all interleavings: the enqueue order (lock order)
+        is "all jobs, then all stop tasks";
+    (2) stop tasks are handed to push() only by the destructor thread — none before the
+        destructor started, `k` while it is `pushing k`, N = number of workers afterwards;
+    (3) once the destructor has started every submit() has enqueued its job (domain: no submit
+        concurrent with the destructor);
+    (4) a worker's thread function only returns after the worker popped a stop task from the
+        work queue; the destructor only joins workers that have returned;
+    (5) when the destructor has returned: all N workers have been joined after exiting, each
+        after popping a stop task; nobody is inside push(); and (at least one worker) the work
+        queue is EMPTY and everything that was ever enqueued was handed to a worker in enqueue
+        order — all jobs before all stop tasks —, so every job queued before the destruction
+        was popped before the last stop task and has run exactly once: no queued task is lost. -/
+theorem pool_destructor_joins_after_queued_tasks (c : PoolSM.Cfg) (s : PoolSM.State)
+    (h : (PoolSM.machine c).Reachable s) :
+    (s.q.pushed = s.q.pushed.filter (fun x => !PoolSM.isStop x) ++ s.q.pushed.filter PoolSM.isStop) ∧
+    ((∀ x ∈ s.q.called, PoolSM.isStop x = true → x = (s.dtorTid, .stop)) ∧
+     (s.q.called.filter PoolSM.isStop).length = PoolSM.dtorK c s.dtor ∧
+     PoolSM.dtorK c s.dtor ≤ c.workers.length ∧
+     (s.dtor = .notStarted → ∀ x ∈ s.q.called, PoolSM.isStop x = false)) ∧
+    (s.dtor ≠ .notStarted → ∀ id out, ¬ PoolSM.InPush s id out) ∧
+    ((∀ w ∈ s.exitedL, s.wpc w = .exited ∧ ∃ t, (w, (t, PoolSM.Task.stop)) ∈ s.q.popped) ∧
+     (∀ w ∈ s.joined, w ∈ s.exitedL ∧ w ∈ c.workers) ∧ s.joined.Nodup) ∧
+    (s.dtor = .done →
+      (∀ w ∈ c.workers, w ∈ s.joined ∧ s.wpc w = .exited ∧ ∃ t, (w, (t, PoolSM.Task.stop)) ∈ s.q.popped) ∧
+      (∀ t, inflight s.q t = []) ∧
+      (c.workers ≠ [] →
+        s.q.items = [] ∧ s.q.popped.map (fun p => p.2) = s.q.pushed ∧
+        ∀ id out, (id, out) ∈ s.submitted →
+          (∃ w t, (w, (t, PoolSM.Task.job id out)) ∈ s.q.popped) ∧ PoolSM.RanOnce s id out)) := by
+  have hq := PoolSM.reachable_q c s h
+  have hu := PoolSM.inv_inUse c s h
+  obtain ⟨s1, s2, s3⟩ := PoolSM.inv_stops_called c s h
+  obtain ⟨e1, _⟩ := PoolSM.inv_exitedL c s h
+  obtain ⟨j1, j2, _⟩ := PoolSM.inv_joined c s h
+  have hstop : ∀ w, s.wpc w = .exited → ∃ t, (w, (t, PoolSM.Task.stop)) ∈ s.q.popped :=
+    fun w hw => PoolSM.inv_stop_link c s h w (.inr (.inr hw))
+  refine ⟨PoolSM.inv_pushed_shape c s h, ⟨s3, s1, s2, fun hd => PoolSM.no_stop_before_dtor c s h hd⟩, ?_,
+    ⟨fun w hw => ⟨(e1 w).mp hw, hstop w ((e1 w).mp hw)⟩, j2, j1⟩, ?_⟩
+  · rintro hd id out ⟨t, ht⟩
+    have := PoolSM.inv_noJobInflight c s h hd t _ ht
+    simp at this
+  · intro hd
+    have hnofl := PoolSM.inv_noInflight_joining c s h (.inr hd)
+    refine ⟨fun w hw => ?_, hnofl, fun hw => ?_⟩
+    · obtain ⟨a, b⟩ := PoolSM.done_all_exited c s h hd w hw
+      exact ⟨a, b, hstop w b⟩
+    · have hempty := PoolSM.done_queue_empty c s h hd hw
+      have hpe : s.q.popped.map (fun p => p.2) = s.q.pushed := by
+        rw [pushed_eq c.qc s.q hq hu, hempty, List.append_nil]
+      refine ⟨hempty, hpe, fun id out hs => ⟨?_, PoolSM.done_all_ran c s h hd hw hs⟩⟩
+      obtain ⟨t, ht⟩ := PoolSM.submitted_called c s h hs
+      rcases called_cases c.qc s.q hq hu ht with hp | hf
+      · rw [← hpe] at hp
+        obtain ⟨⟨w, x⟩, hm, hx⟩ := List.mem_map.mp hp
+        simp only at hx
+        subst hx
+        exact ⟨w, t, hm⟩
+      · rw [hnofl] at hf; cases hf
+
+/-- Step-local complement of `pool_exactly_once`: running a job is only possible for the worker
+    that holds it; the step executes it once (counter + 1), stores its outcome in the shared
+    state of its future, touches no other job, and the worker gives the job up (back to the
+    loop); `future.get()` can then only observe that outcome. -/
+theorem pool_task_run_step (c : PoolSM.Cfg) (s s' : PoolSM.State) (w : Tid) (id : Nat)
     (h : (PoolSM.machine c).Step s (.taskRun w id) s') :
     ∃ out, s.wpc w = .running id out ∧ s'.runCount id = s.runCount id + 1 ∧
       s'.future id = some out ∧ s'.wpc w = .loop ∧
@@ -364,15 +489,12 @@ theorem pool_exactly_once_partial (c : PoolSM.Cfg) (s s' : PoolSM.State) (w : Ti
     · simp at h
   · simp at h
 
-/-- `_partial` (destructor).  PROVED: the destructor can only join a worker whose thread
-    function has returned, only finishes after one join per worker, a worker only returns
-    after receiving a stop task from the work queue, and stop tasks are only pushed by the
-    destructor after it started, which requires that no submit() is in progress; the work
-    queue is FIFO (`pool_work_queue_fifo`).
-    MISSING for the full statement (all queued jobs have run when the destructor returns): the
-    invariant `pushed = jobs ++ stops` over all interleavings (needs a count of the push()
-    calls in progress over the unbounded thread set). -/
-theorem pool_destructor_joins_after_queued_tasks_partial (c : PoolSM.Cfg) (s s' : PoolSM.State) (d w : Tid) :
+/-- Step-local complement of `pool_destructor_joins_after_queued_tasks` (the guards of the
+    destructor-side steps): the destructor can only join a worker whose thread function has
+    returned, only finishes after one join per worker, a worker only returns after receiving a
+    stop task, stop tasks are only pushed by the destructor after it started, which requires
+    that no submit() is in progress. -/
+theorem pool_destructor_step_guards (c : PoolSM.Cfg) (s s' : PoolSM.State) (d w : Tid) :
     ((PoolSM.machine c).Step s (.dtorJoin d w) s' → w ∈ s.exitedL ∧ w ∈ c.workers ∧ w ∉ s.joined) ∧
     ((PoolSM.machine c).Step s (.dtorDone d) s' → s.joined.length = c.workers.length) ∧
     ((PoolSM.machine c).Step s (.workerExit w) s' → s.wpc w = .stopping) ∧
@@ -415,5 +537,57 @@ theorem pool_destructor_joins_after_queued_tasks_partial (c : PoolSM.Cfg) (s s' 
   · intro h
     simp [Machine.Step, PoolSM.machine, PoolSM.step?] at h
     exact h.1.2.2
+
+
+/-! ## non-vacuity for the pool: a complete life of a pool (evaluated by the kernel) -/
+
+/-- run a pool trace from the initial state -/
+def runPool (c : PoolSM.Cfg) (tr : List PoolSM.Ev) : Option PoolSM.State :=
+  tr.foldlM (PoolSM.step? c) PoolSM.init
+
+theorem pool_foldlM_reachable (c : PoolSM.Cfg) (tr : List PoolSM.Ev) (s0 s : PoolSM.State)
+    (h0 : (PoolSM.machine c).Reachable s0) (h : tr.foldlM (PoolSM.step? c) s0 = some s) :
+    (PoolSM.machine c).Reachable s := by
+  induction tr generalizing s0 with
+  | nil => simp at h; exact h ▸ h0
+  | cons e rest ih =>
+    simp only [List.foldlM_cons, Option.bind_eq_bind, Option.bind_eq_some_iff] at h
+    obtain ⟨s1, h1, h2⟩ := h
+    exact ih s1 (.step h0 h1) h2
+
+theorem pool_trace_witness (c : PoolSM.Cfg) (tr : List PoolSM.Ev) (P : PoolSM.State → Bool)
+    (h : (runPool c tr).map P = some true) : ∃ s, (PoolSM.machine c).Reachable s ∧ P s = true := by
+  simp only [Option.map_eq_some_iff] at h
+  obtain ⟨s, hs, hp⟩ := h
+  exact ⟨s, pool_foldlM_reachable c tr _ s .init hs, hp⟩
+
+/-- two workers (1, 2), submitter 5, destructor thread 9, bound 1: two jobs (a value and an
+    exception) are submitted and run, worker 2 blocks on the empty queue and is woken by a stop
+    task, the destructor pushes two stop tasks (waiting once for space), joins and returns -/
+def poolLife : List PoolSM.Ev :=
+  [.q (.popBlock 2),
+   .q (.pushEnter 5 (.job 7 (.value 42))), .q (.pushTest 5 true), .q (.pushSize 5 0),
+   .q (.pushLocked 5 1 (some 2)),
+   .q (.popNow 1 1 (some (5, .job 7 (.value 42)))), .q (.popRewait 2), .workerGot 1 true,
+   .q (.pushEnter 5 (.job 8 (.exc 3))), .q (.pushTest 5 true), .q (.pushSize 5 0),
+   .q (.pushLocked 5 1 (some 2)),
+   .taskRun 1 7, .futureGet 5 7 (.value 42),
+   .q (.popWake 2 1 (some (5, .job 8 (.exc 3)))), .workerGot 2 true,
+   .dtorStart 9,
+   .q (.pushEnter 9 .stop), .q (.pushTest 9 true), .q (.pushSize 9 0), .q (.pushLocked 9 1 none),
+   .q (.pushEnter 9 .stop), .q (.pushTest 9 true), .q (.pushSize 9 1), .q (.pushFullWaited 9 1),
+   .q (.popNow 1 1 (some (9, .stop))), .q (.pushSize 9 0), .q (.pushLocked 9 1 none),
+   .dtorPushed 9,
+   .taskRun 2 8, .q (.popNow 2 1 (some (9, .stop))), .workerGot 1 true, .workerGot 2 true,
+   .workerExit 2, .workerExit 1, .dtorJoin 9 1, .dtorJoin 9 2, .dtorDone 9,
+   .futureGet 5 8 (.exc 3)]
+
+/-- the hypotheses of the termination clauses (`s.dtor = .done`, `c.workers ≠ []`, a submitted
+    job) are satisfiable -/
+example : ∃ s, (PoolSM.machine ⟨[1, 2], ⟨1, false⟩⟩).Reachable s ∧
+    (decide (s.dtor = .done) && decide (s.submitted = [(7, .value 42), (8, .exc 3)])
+      && decide (s.runCount 7 = 1) && decide (s.runCount 8 = 1)
+      && decide (s.future 8 = some (.exc 3)) && decide (s.q.items = [])) = true :=
+  pool_trace_witness _ poolLife _ (by decide)
 
 end Osmium.C19
